@@ -417,6 +417,33 @@ def gen_tables(repo, changed, manifest):
         css = ", ".join(f"({cs}, [" + ", ".join(f'("{sh}", {tri(v)})' for sh, v in d.items()) + "])" for cs, d in t.items())
         adv.append(f"({z}, [{css}])")
     L.append("def lotzAdvanced : List (Nat × List (Nat × List (String × Tri))) := [\n  " + ",\n  ".join(adv) + "]")
+    # structured (string-free) forms for the kernel-decidable table theorems
+    LCH = {"s": 0, "p": 1, "d": 2, "f": 3}
+    SGN = {"": 0, "-": 1, "+": 2}
+    def shell_s(name):
+        m = re.fullmatch(r"(\d)([spdf])([+-]?)", name)
+        if not m:
+            raise Unsupported(f"shell name {name!r}")
+        return f"({int(m.group(1))}, {LCH[m.group(2)]}, {SGN[m.group(3)]})"
+    def nkey_s(key):
+        m = re.fullmatch(r"(n|\d)([spdf])(\d+)", key)
+        if not m:
+            raise Unsupported(f"neutral Lotz key {key!r}")
+        return f"({0 if m.group(1) == 'n' else int(m.group(1))}, {LCH[m.group(2)]}, {int(m.group(3))})"
+    def stub_s(key):
+        m = re.fullmatch(r"(\d)([spdf])", key)
+        if not m:
+            raise Unsupported(f"advanced Lotz key {key!r}")
+        return f"({int(m.group(1))}, {LCH[m.group(2)]})"
+    L.append("/-- shells as (principal quantum number, l: s=0 p=1 d=2 f=3, sign: none=0 '-'=1 '+'=2) -/")
+    L.append("def shellOrderS : List (Nat × Nat × Nat) := [" + ", ".join(shell_s(s) for s in ORDER) + "]")
+    L.append("/-- neutral table keyed by (n class: 0 = 'n', l, occupation) -/")
+    L.append("def lotzNeutralS : List ((Nat × Nat × Nat) × Tri) := [" + ", ".join(f'({nkey_s(k)}, {tri(v)})' for k, v in tabs["_LOTZ_NEUTRAL_TABLE"].items()) + "]")
+    advs = []
+    for z, t in tabs["_LOTZ_ADVANCED_TABLE"].items():
+        css = ", ".join(f"({cs}, [" + ", ".join(f'({stub_s(sh)}, {tri(v)})' for sh, v in d.items()) + "])" for cs, d in t.items())
+        advs.append(f"({z}, [{css}])")
+    L.append("def lotzAdvancedS : List (Nat × List (Nat × List ((Nat × Nat) × Tri))) := [\n  " + ",\n  ".join(advs) + "]")
     L.append("def shellOrder : List String := [" + ", ".join(f'"{s}"' for s in ORDER) + "]")
     L.append("def shellN : List Nat := [" + ", ".join(str(int(x)) for x in N) + "]")
     L.append("def elemZ : List Nat := [" + ", ".join(str(int(x)) for x in ed.Z) + "]")
@@ -425,6 +452,11 @@ def gen_tables(repo, changed, manifest):
             raise Unsupported("non-integer default mass number")
     L.append("def elemA : List Nat := [" + ", ".join(str(int(x)) for x in ed.A) + "]")
     L.append("def elemIP : List Nat := [" + ", ".join(sc(x, SC_COEF) for x in ed.IP) + "]")
+    def codes(st):
+        return "[" + ", ".join(str(ord(ch)) for ch in st) + "]"
+    L.append("/-- symbols / names as lists of code points (string-free, kernel-decidable) -/")
+    L.append("def elemESc : List (List Nat) := [" + ", ".join(codes(x) for x in ed.ES) + "]")
+    L.append("def elemNAMEc : List (List Nat) := [" + ", ".join(codes(x) for x in ed.NAME) + "]")
     L.append("def elemES : List String := [" + ", ".join(f'"{s}"' for s in ed.ES) + "]")
     L.append("def elemNAME : List String := [" + ", ".join(f'"{s}"' for s in ed.NAME) + "]")
     L.append("end Gen")
